@@ -971,6 +971,20 @@ class Interp:
                 raise Unsupported("del target")
 
     def st_If(self, st, frame):
+        # if-conversion (no fork) for a guarded deletion from a symbolic table:
+        #     if <cond>: del table[key]
+        if not st.orelse and len(st.body) == 1 and isinstance(st.body[0], ast.Delete) \
+                and len(st.body[0].targets) == 1 and isinstance(st.body[0].targets[0], ast.Subscript):
+            tgt = st.body[0].targets[0]
+            table = self.eval(tgt.value, frame)
+            if hasattr(table, "guarded_delete"):
+                cond = self.truth_term(self.eval(st.test, frame))
+                if not isinstance(cond, bool):
+                    table.guarded_delete(self, cond, self.eval(tgt.slice, frame))
+                    return
+                if cond:
+                    self.exec_block(st.body, frame)
+                return
         if self.truth(self.eval(st.test, frame)):
             self.exec_block(st.body, frame)
         else:
